@@ -111,12 +111,32 @@ def run_spec(spec, rec):
                                   worst_stall=obs.get('worst_stall'))
                 rec.maxi('max:loss_latency_over_T_ms', int(1000 * (dt - T)))
     else:
+        # imap / imap_unordered over three parts, part 1 dies: the consumer gets
+        # the other two values and one WorkerLostError (ordered: at position 1),
+        # no earlier than the grace period after the death, and the iterator ends
         items = oc[1] if oc[0] == 'items' else []
-        lost = [x for x in items if x[0] == 'exc']
-        if not lost or items[-1:] == [['stuck']]:
+        lost = [x for x in items if x[0] == 'exc' and x[1] == 'WorkerLostError']
+        vals = [['ok', ['v', 'i.0']], ['ok', ['v', 'i.2']]]
+        shape = [x[:2] if x[0] == 'ok' else [x[0], x[1]] for x in items]
+        if [x for x in items if x[0] in ('timeout', 'stuck')] or not lost:
             rec.violation('loss_never_reported', attrs, params=p, items=items)
         else:
             rec.count('real:losses_reported')
+            rec.count('real:imap_losses_reported')
+            want_shape = [vals[0], ['exc', 'WorkerLostError'], vals[1]]
+            if (shape != want_shape) if kind == 'imap' else \
+                    (sorted(map(repr, shape)) != sorted(map(repr, want_shape))):
+                rec.violation('lost_job_wrong_outcome', attrs, outcome=items, params=p)
+            if want not in lost[0][2]:
+                rec.violation('loss_message_wrong_status', attrs, msg=lost[0][2], want=want)
+            if t_dying is not None:
+                dt = lost[0][3] - t_dying
+                if dt < T - 0.02:
+                    rec.violation('loss_reported_before_grace_period', attrs, dt=dt, T=T, params=p)
+                if dt > T + 1.6 + 6.0:
+                    rec.violation('loss_reported_late', attrs, dt=dt, T=T,
+                                  worst_stall=obs.get('worst_stall'))
+                rec.maxi('max:loss_latency_over_T_ms', int(1000 * (dt - T)))
     for o in obs['others']:
         rec.count('real:other_jobs')
         if o[0] != 'ok':
